@@ -804,4 +804,5 @@ var rangePanicCallees = map[string]bool{
 	"(cosmossdk.io/math.LegacyDec).RoundInt64":       true,
 	"(github.com/cosmos/cosmos-sdk/types.Coins).Sub": true,
 	"(github.com/cosmos/cosmos-sdk/types.Coin).Sub":  true,
+	"github.com/cosmos/cosmos-sdk/types.NewCoin":     true, // panics on a negative amount
 }
